@@ -14,7 +14,7 @@ RULE = ("mnemonic.seed events compared with hashlib PBKDF2-HMAC-SHA512(canonical
         "pairs, compatibility characters, Hangul, astral plane, combining-mark reorderings, random assigned code points "
         "(Unicode 14 repertoire). distinct = distinct (phrase text, passphrase, profile); non-trivial = 64-byte seed compared")
 REQUIRED = (["len-%d" % n for n in bip39.LEGAL_COUNTS] + ["pw-empty", "pw-ascii", "pw-long-salt>128B", "nfkd-changes-salt", "pw-astral",
-            "layout-messy", "phrase>128B", "phrase<=128B", "nfkd-pair-equal", "pw-hangul", "pw-combining-reorder"])
+            "layout-messy", "phrase>128B", "phrase<=128B", "nfkd-pair-equal", "pw-hangul", "pw-combining-reorder", "pw-whitespace-edge", "layout-unicode-whitespace"])
 ASSUMPTIONS = ["passphrase code points are restricted to those assigned in Unicode 14 (Python's table); the Unicode stability "
                "policy guarantees the crate's newer table normalises them identically"]
 
@@ -72,6 +72,8 @@ def judge_seed(case, obs):
     v.bucket("phrase>128B" if len(canonical.encode()) > 128 else "phrase<=128B")
     if req["phrase"] != canonical:
         v.bucket("layout-messy")
+        if any(ord(c) > 127 for c in req["phrase"]):
+            v.bucket("layout-unicode-whitespace")
     salt = "mnemonic" + pw
     nf = unicodedata.normalize("NFKD", salt)
     if pw == "":
@@ -155,14 +157,33 @@ def _password(rng):
         return "".join(chr(rng.randint(0xac00, 0xd7a3)) for _ in range(rng.randint(1, 6))), []
     if k == 8:
         return "TREZOR", []
+    if k == 9:
+        # white space at the edges / only white space: part of the passphrase, never trimmed
+        core = "".join(chr(rng.randint(0x21, 0x7e)) for _ in range(rng.randint(0, 6)))
+        return rng.choice([" ", "\t", "\n", "  "]) + core + rng.choice(["", " ", "\n", "\u00a0"]), ["pw-whitespace-edge"]
+    if k == 10:
+        return rng.choice(["mnemonic", "MNEMONIC", "\x00", "a\x00b", "\x7f", "\\", "'\"", "%s", "\u200b", "\ufeff"]), []
     return rand_unicode(rng, rng.randint(1, 24)), []
 
 
 def gen(shard, rng, tier):
+    # Small pools make inputs collide inside one server process: the same phrase with another passphrase, the same
+    # passphrase with another phrase. A result that depends on an earlier call (a stale cache) then shows as a mismatch.
+    pool_words, pool_pw = [], []
     for i in range(shard["count"]):
-        words = _phrase(rng)
-        phrase = " ".join(words) if rng.random() < 0.6 else messy_layout(rng, words)
-        pw, tags = _password(rng)
+        if pool_words and rng.random() < 0.3:
+            words = rng.choice(pool_words)
+        else:
+            words = _phrase(rng)
+            pool_words.append(words)
+            del pool_words[:-6]
+        phrase = " ".join(words) if rng.random() < 0.6 else messy_layout(rng, words, bip39.ASCII_WS if rng.random() < 0.6 else bip39.UNICODE_WS)
+        if pool_pw and rng.random() < 0.3:
+            pw, tags = rng.choice(pool_pw)
+        else:
+            pw, tags = _password(rng)
+            pool_pw.append((pw, tags))
+            del pool_pw[:-6]
         yield from both(lib_case("seed", {"op": "mnemonic.seed", "phrase": phrase, "password": pw}, {"cls": "seed", "tags": tags}))
         if i % 6 == 0:
             a, b = rng.choice([p for p in NFKD_PAIRS if p[1]])
